@@ -28,6 +28,11 @@ CHECKS = {
     note="LWF (unique ids, dependencies resolve in the phase, rank function) is what C10 establishes for accepted methods. Ids are numbered by sorted rank in the harness (str comparison of CPython is trusted). Guards are flags/negations/constants.",
     technique="Lean 4 proof (simulation of the verifier's DFS machine, structural induction, sorted-permutation uniqueness) over hand-written model; exhaustive small-scope + random differential correspondence; independent trace oracle over all flag valuations",
     ref="7/C05"),
+ "C08": dict(
+    text="Lean 4 theorems for EVERY statement, store and interpretation of the function symbols, over a model of the interpreter's evaluator and exec_* methods that is instrumented with each store look-up and assignment: every look-up of the evaluator is a variable reported by the dependency mapper (short-circuit and lazy operators included), values depend on nothing else, every name read while executing a statement (guard, rhs, subscripts on both sides, loop bounds, call arguments, yielded value and time) is in its declared read or write set, every name assigned is in its declared write set, nothing outside the write set changes, agreement of two stores on the effective sets is preserved (the frame conditions C02 builds on), identity map_expressions leaves the sets unchanged. Correspondence: random statements of every kind executed by the real interpreter methods on exact-integer stores with a recording dict / recording arrays; declared sets, access logs, resulting values, status and events compared exactly.",
+    note="Loop counters are local to the statement in the model (the code stores and deletes them in the context; 'loop counters aside' in the property). Operations Python raises on are the poison value undef in the model; generators avoid them and drop+count such cases. The pinned tree omitted lhs-subscript and loop-bound variables from the read set and could not execute Nop / zero-trip loops: repaired by fix: commits.",
+    technique="Lean 4 proof (mutual structural induction over the expression type, compositional 'Good' transformer predicate for loops) over hand-written instrumented semantics; random differential correspondence with recorded access logs",
+    ref="7/C08"),
 }
 
 NOT_APPLICABLE = {}
